@@ -26,6 +26,7 @@ use pin_project::pin_project;
 mod tests;
 
 const DEFAULT_START_BUDGET: NonZeroUsize = unsafe { NonZeroUsize::new_unchecked(64) };
+const MIN_BUDGET: NonZeroUsize = unsafe { NonZeroUsize::new_unchecked(2) };
 
 thread_local! {
     static TASK_BUDGET: Cell<Option<usize>> = const { Cell::new(None) };
@@ -91,7 +92,13 @@ impl<F> RunWithBudget<F> {
 
     /// Create a new wrapper that sets the budget to the specified value each time it is polled.
     pub fn with_budget(budget: NonZeroUsize, fut: F) -> Self {
-        RunWithBudget { budget, fut }
+        // A budget of 1 is used up by the first operation without performing it (see `consume_budget`):
+        // a task with that budget yields on every poll and never makes progress. The smallest budget
+        // that allows an operation is used instead.
+        RunWithBudget {
+            budget: budget.max(MIN_BUDGET),
+            fut,
+        }
     }
 }
 
